@@ -536,6 +536,7 @@ def compare(ctx, cases, drv):
             raise core.HarnessError("model driver error: " + m["error"])
         per_case.setdefault(i, []).append(m)
     problems = []
+    sql_items = []  # (case, acc_truth request, acc_truth result): the regenerated truth-space SQL is evaluated on the same input
     for i, (c, r) in enumerate(zip(cases, res)):
         rq = c.pop("_reqs", None)
         pairs = labelled_pairs(c)
@@ -574,7 +575,12 @@ def compare(ctx, cases, drv):
         if bad:
             problems.append((c, "model", "outputs differ from Lean model Accuracy: " + bad, False))
             continue
+        if rq and c["mode"] == "table":
+            sql_items.append((c, rq[0], ms[0]))
         ctx.traces_validated += 1
+    from harness.props import c15_sql
+
+    problems += [(c, "model", w, False) for c, w in c15_sql.validate(ctx, sql_items, drv)]
     return problems
 
 
@@ -648,7 +654,13 @@ def run(ctx: core.Ctx):
         "cast(x as float) is a 32-bit float on DuckDB and a double on SQLite; round() rounds half away from zero on both",
         "label-column mode with no blocking rule at all is generated only in the labels-table mode (see report: column mode then scores nothing as found)",
     ]
+    from harness.props import c15_sql
+
+    sql_errs = c15_sql.prepare()  # Generated/AccSql.lean: the truth-space SQL accuracy.py emits now, as Rel terms (T-sql)
     ctx.lean = core.lean_check(PROP, ctx.thorough)
+    if sql_errs:
+        ctx.lean.ok = False
+        ctx.lean.problems += ["T-sql: " + e for e in sql_errs]
     drv = core.Driver()
     if ctx.replay:
         cases = [normalise(json.loads(open(ctx.replay).read())["replay"]["case"])]
